@@ -46,6 +46,9 @@ var controls = []control{
 	{"state-overwritten-before-step", []string{"C18"}, false, "seq/seq.go", "\ts := d.next(sent) // compute next step\n", "\td.current = zero[V]()\n\ts := d.next(sent) // compute next step\n", "SEQ.CHAIN"},
 	{"implicit-normal-table", []string{"C01", "C11"}, true, "rewriter/yield_block.go", "\tcase kindIf, kindSwitch, kindTrival:\n\t\treturn !isTerminating(last)", "\tcase kindIf, kindTrival:\n\t\treturn !isTerminating(last)", "RW.KINDTAB"},
 	{"break-ignores-native-switch", []string{"C01"}, true, "rewriter/yield_rewrite.go", "\t\t\t\tif inLoop() || inSwitch() {\n\t\t\t\t\treturn\n\t\t\t\t}\n\t\t\t\tr.assert(n.Label == nil, n, \"break", "\t\t\t\tif inLoop() {\n\t\t\t\t\treturn\n\t\t\t\t}\n\t\t\t\tr.assert(n.Label == nil, n, \"break", "RW.BRANCHCTX"},
+	{"switch-case-list-dropped", []string{"C01"}, true, "rewriter/yield_rewrite.go", "\t\tcases = append(cases, X.Case(clause.List, caseBody.block.List))", "\t\tcases = append(cases, X.Case(nil, caseBody.block.List))", "RW.TMPL.SWITCH"},
+	{"if-else-takes-then-block", []string{"C01"}, false, "rewriter/yield_rewrite.go", "\t\telsStmt := unwrapIf(els.block)\n\t\tiff := X.IfStmt(stmt.Init, stmt.Cond, body.block, elsStmt)\n\t\tchildren.push(iff, kindIf)\n\t\treturn\n\n\tcase *ast.IfStmt:", "\t\telsStmt := unwrapIf(body.block)\n\t\tiff := X.IfStmt(stmt.Init, stmt.Cond, body.block, elsStmt)\n\t\t_ = els\n\t\tchildren.push(iff, kindIf)\n\t\treturn\n\n\tcase *ast.IfStmt:", "RW.TMPL.IF"},
+	{"combine-first-half-not-closed", []string{"C01", "C03"}, false, "rewriter/yield_rewrite.go", "\tcurrent.push(children.pop())\n\tr.generateLastNormalIfNecessary(current)\n", "\tcurrent.push(children.pop())\n", "RW.TMPL.COMBINESPLIT"},
 	{"for-args-swapped", []string{"C01", "C02"}, false, "rewriter/yield_ast.go", "\treturn y.SeqCall(cstFor, cond, post, body)", "\treturn y.SeqCall(cstFor, post, cond, body)", "RW.TMPL.FOR"},
 	{"defer-not-rejected", []string{"C12"}, true, "rewriter/yield_rewrite.go", "\t\t*ast.LabeledStmt, *ast.CaseClause,\n\t\t*ast.DeferStmt:", "\t\t*ast.LabeledStmt, *ast.CaseClause:", "RW.DISPATCH"},
 	{"if-init-unguarded", []string{"C12"}, true, "rewriter/yield_rewrite.go", "\tr.assert(r.mustNoYield(stmt.Init), stmt, \"yield in if-init not supported\")\n", "", "RW.FIELDCOV"},
